@@ -1581,6 +1581,15 @@ func (db *DB) CommitWAL(ctx context.Context) (err error) {
 	} else if err != nil {
 		return fmt.Errorf("build tx frame offsets: %w", err)
 	}
+
+	// Frames for pages past the commit size can be written when SQLite spills
+	// its cache and then shrinks the database in the same transaction. SQLite
+	// ignores those frames so they are not part of the transaction.
+	for pgno := range txFrameOffsets {
+		if pgno > commit {
+			delete(txFrameOffsets, pgno)
+		}
+	}
 	txPageCount = len(txFrameOffsets)
 
 	dbFile, err := db.os.Open("COMMITWAL:DB", db.DatabasePath())
